@@ -113,6 +113,12 @@ impl FieldAttributeBuilder {
 
                             output = Some(self.build_from_clone_meta(&meta)?);
                         }
+
+                        // when `Clone` is educed, `Copy`'s handler leaves fields and variants to this one
+                        #[cfg(feature = "Copy")]
+                        if t == Trait::Copy {
+                            return Err(panic::attribute_incorrect_place(path.get_ident().unwrap()));
+                        }
                     }
                 }
             }
